@@ -7,6 +7,7 @@
 
 extern int verif_fatal_forbidden;
 static char verif_text[4] = "ab";
+static char verif_empty[1] = "";
 static spif_charptr_t verif_list_store[2] = { (spif_charptr_t) "ab", (spif_charptr_t) 0 };
 #define verif_list verif_list_store
 
@@ -27,6 +28,9 @@ remember(void *p, int kind)
 static spif_str_t mk_str(void) { return (spif_str_t) remember(spif_str_new_from_ptr(SPIF_CHARPTR(verif_text)), K_STR); }
 static spif_ustr_t mk_ustr(void) { return (spif_ustr_t) remember(spif_ustr_new_from_ptr(SPIF_CHARPTR(verif_text)), K_USTR); }
 static spif_mbuff_t mk_mbuff(void) { return (spif_mbuff_t) remember(spif_mbuff_new_from_ptr((spif_byteptr_t) verif_text, 2), K_MBUFF); }
+static spif_str_t mk_str_empty(void) { return (spif_str_t) remember(spif_str_new(), K_STR); }
+static spif_ustr_t mk_ustr_empty(void) { return (spif_ustr_t) remember(spif_ustr_new(), K_USTR); }
+static spif_mbuff_t mk_mbuff_empty(void) { return (spif_mbuff_t) remember(spif_mbuff_new(), K_MBUFF); }
 static spif_tok_t mk_tok(void) { return (spif_tok_t) remember(spif_tok_new_from_ptr(SPIF_CHARPTR(verif_text)), K_TOK); }
 static spif_url_t mk_url(void) { return (spif_url_t) remember(spif_url_new_from_ptr(SPIF_CHARPTR("/p")), K_URL); }
 static spif_regexp_t mk_regexp(void) { return (spif_regexp_t) remember(spif_regexp_new_from_ptr(SPIF_CHARPTR(verif_text)), K_REGEXP); }
